@@ -21,7 +21,7 @@ ASSUMPTIONS = ["str input is right-stripped line by line by the tokenizer (docum
                "the position of the end-of-text token is only required to be an empty span not before the "
                "last token and inside the text"]
 TIERS = {
-    "quick": {"shards": 4, "cases": 4000, "timeout": 600},
+    "quick": {"shards": 4, "cases": 4000, "timeout": 300},
     "thorough": {"shards": 16, "cases": 12000, "timeout": 3000},
 }
 FLOORS = {"quick": {"distinct_nontrivial": 800, "tokens_checked": 50000, "nodes_checked": 30000,
